@@ -1,4 +1,5 @@
-"""Sequence stream for the Circuit object (used by checks/c15.py and checks/c09.py; placement-stage sequences, tag SP, by checks/c01.py).
+"""Sequence stream for the Circuit object (used by checks/c15.py and checks/c09.py; placement-stage sequences, tag SP, by checks/c01.py
+and checks/c11.py).
 
 One Circuit is edited through the real public setters (setCellX/Y/Width/Height/Orientation/IsFixed/IsObstruction,
 setSolution, setRows, setupRows, addNet, setNets, copy assignment) in random order and is queried after every step
